@@ -9,6 +9,7 @@ import pty
 import select as real_select
 import signal
 import termios
+import threading
 import time as real_time
 
 TICK = 1_000_000      # virtual microseconds per tick
@@ -52,6 +53,7 @@ class Env:
         self.reads_in_req = 0
         self.stream_fd = None
         self.perform = None  # callable(action)
+        self.gate = None     # callable(kind): blocks a callback thread at its next shared-state operation
 
     # --- time module double
     def time(self):
@@ -85,6 +87,12 @@ class OsProxy:
 
     def __getattr__(self, name):
         return getattr(os, name)
+
+    def write(self, fd, data):
+        gate = self._env.gate
+        if gate is not None and threading.current_thread() is not threading.main_thread():
+            gate("tswrite")
+        return os.write(fd, data)
 
     def read(self, fd, n):
         data = os.read(fd, n)
@@ -177,6 +185,55 @@ def run_history(hist, paste_threshold=8, final_drain=True):
             ts = inp.threadsafe_event_trigger(Ev)
             ts_wfd = closure_int(ts)
 
+            # Thread-safe callbacks run in real helper threads executing the real callback; the thread is paused
+            # (strict handshake, so still deterministic) right before each operation on shared state - the
+            # queue append and the wake-up pipe write, in whatever order the code performs them.
+            class HookList(list):
+                def append(self, x):
+                    if env.gate is not None and threading.current_thread() is not threading.main_thread():
+                        env.gate("tsappend")
+                    list.append(self, x)
+            inp.queued_interrupting_events = HookList(inp.queued_interrupting_events)
+            paused = []          # [thread, kind, go_event, done_flag, id]
+            local = threading.local()
+
+            def gate(kind):
+                st = local.st
+                st["kind"] = kind
+                st["reached"].set()
+                st["go"].wait()
+                st["go"].clear()
+            env.gate = gate
+
+            def start_callback(ident):
+                st = {"kind": None, "reached": threading.Event(), "go": threading.Event(), "done": False, "id": ident}
+
+                def body():
+                    local.st = st
+                    try:
+                        ts(id=ident)
+                    finally:
+                        st["done"] = True
+                        st["reached"].set()
+                t = threading.Thread(target=body, daemon=True)
+                st["thread"] = t
+                t.start()
+                st["reached"].wait(5)
+                st["reached"].clear()
+                if not st["done"]:
+                    paused.append(st)
+                return st
+
+            def step_callback(st):
+                """let the paused callback perform its pending operation and run to the next one (or finish)"""
+                kind = st["kind"]
+                rec.append({"k": "tsappend", "id": st["id"]} if kind == "tsappend" else {"k": "tswrite", "id": st["id"]})
+                st["go"].set()
+                st["reached"].wait(5)
+                st["reached"].clear()
+                if st["done"] and st in paused:
+                    paused.remove(st)
+
             def perform(a):
                 k = a["k"]
                 if k == "arrive":
@@ -195,15 +252,22 @@ def run_history(hist, paste_threshold=8, final_drain=True):
                     sched(BASE + a["when"] * TICK / 1e6)
                     rec.append({"k": "sched", "id": a["id"], "when": a["when"] * TICK})
                 elif k == "tsappend":
-                    inp.queued_interrupting_events.append(Ev(a["id"]))
-                    rec.append({"k": "tsappend", "id": a["id"]})
+                    # a thread starts the real callback and performs its first shared-state operation
+                    st = start_callback(a["id"])
+                    if not st["done"]:
+                        step_callback(st)
                 elif k == "tswrite":
-                    os.write(ts_wfd, b"interrupting event!")
-                    rec.append({"k": "tswrite"})
+                    # the oldest half-done callback performs its next operation; with none pending this is a
+                    # stray wake-up byte (e.g. the late half of a callback whose event was already consumed)
+                    if paused:
+                        step_callback(paused[0])
+                    else:
+                        os.write(ts_wfd, b"interrupting event!")
+                        rec.append({"k": "tswrite", "id": 0})
                 elif k == "tscall":
-                    ts(id=a["id"])
-                    rec.append({"k": "tsappend", "id": a["id"]})
-                    rec.append({"k": "tswrite"})
+                    st = start_callback(a["id"])
+                    while not st["done"]:
+                        step_callback(st)
                 elif k == "sigint":
                     os.kill(os.getpid(), signal.SIGINT)
                     for _ in range(5):
@@ -263,6 +327,8 @@ def run_history(hist, paste_threshold=8, final_drain=True):
                 for b in left:          # not consumed while blocked: they happen before the next request
                     perform(b)
                 i = j
+            while paused:
+                step_callback(paused[0])
             if final_drain:
                 # let every scheduled event become due, then drain
                 maxw = max([a["when"] for a in hist if a["k"] == "sched"] + [0])
@@ -278,6 +344,9 @@ def run_history(hist, paste_threshold=8, final_drain=True):
                         break
                 rec.append({"k": "end"})
         finally:
+            env.gate = None
+            for st in list(paused):
+                st["go"].set()
             try:
                 inp.__exit__(None, None, None)
             except Exception:  # noqa
